@@ -493,12 +493,43 @@ out:
 	vf_stat_add (st_points, 1);
 }
 
+/* ------------------------------------------------------------------ the reference generator itself is MDS (complete for m=4) */
+static int gf_rank (int m, unsigned char *M, int rows, int cols)
+{
+	int rk = 0, c, r, j;
+	for (c = 0; c < cols && rk < rows; c++) {
+		int piv = -1; unsigned inv;
+		for (r = rk; r < rows; r++) if (M[r * cols + c]) { piv = r; break; }
+		if (piv < 0) continue;
+		if (piv != rk) for (j = 0; j < cols; j++) { unsigned char t = M[rk * cols + j]; M[rk * cols + j] = M[piv * cols + j]; M[piv * cols + j] = t; }
+		inv = gfr_inv (m, M[rk * cols + c]);
+		for (j = 0; j < cols; j++) M[rk * cols + j] = (unsigned char) gfr_mul (m, M[rk * cols + j], inv);
+		for (r = 0; r < rows; r++) { unsigned f = M[r * cols + c]; if (r == rk || !f) continue; for (j = 0; j < cols; j++) M[r * cols + j] ^= (unsigned char) gfr_mul (m, f, M[rk * cols + j]); }
+		rk++;
+	}
+	return rk;
+}
+static void refmds_point (const pt_t *p)
+{
+	int k = p->k, n = 15, S, i, cnt;
+	unsigned char G[15 * 15], M[15 * 15];
+	snprintf (g_case, sizeof g_case, "refmds k=%d", k); memcpy (vf_slot (), g_case, sizeof g_case);
+	rsr_generator (4, k, n, G);
+	for (S = 0; S < (1 << n); S++) {
+		if (__builtin_popcount ((unsigned) S) != k) continue;
+		for (i = 0, cnt = 0; i < n; i++) if ((S >> i) & 1) { memcpy (M + cnt * k, G + i * k, (size_t) k); cnt++; }
+		if (gf_rank (4, M, k, k) != k) { char sig[96]; snprintf (sig, sizeof sig, "kind=reference-generator-not-MDS|k=%d", k); viol ("MACHINERY", sig); break; }
+		vf_stat_add (st_trans, 1);
+	}
+	vf_stat_add (st_points, 1);
+}
+
 static void item (long it, void *arg)
 {
 	(void) arg;
 	vf_slot_set_prop (PROP);
 	if (vf_deadline_hit ()) { static int said; if (!said) { said = 1; vf_incomplete ("deadline reached at point %ld of %ld", it, NPT); } return; }
-	if (PT[it].slotmode == 9) both_point (&PT[it]); else if (PT[it].codec == 5) p2d_point (&PT[it]); else if (PT[it].codec == 3) ldpc_point (&PT[it]); else rs_point (&PT[it]);
+	if (PT[it].slotmode == 8) refmds_point (&PT[it]); else if (PT[it].slotmode == 9) both_point (&PT[it]); else if (PT[it].codec == 5) p2d_point (&PT[it]); else if (PT[it].codec == 3) ldpc_point (&PT[it]); else rs_point (&PT[it]);
 	vf_stat_add (st_states, 1);
 }
 
@@ -537,6 +568,7 @@ int main (int argc, char **argv)
 			else for (i = 0; i < (int) (sizeof kq / sizeof kq[0]); i++) { k = kq[i]; add_pt (codec, 8, k, 255 - k, 0, 0, k + 4, 0); if (k < 254) add_pt (codec, 8, k, 1, 0, 0, k + 4, 0); }
 			for (n = 2; n <= (thorough ? 24 : 12); n++) for (k = 1; k < n; k++) add_pt (codec, 8, k, n - k, 0, 0, k + 4, 0);
 		}
+		for (k = 1; k <= 14; k++) { add_pt (2, 4, k, 15 - k, 0, 0, 8, 0); PT[NPT - 1].slotmode = 8; }	/* every k x k minor of the m=4 reference generator is non-singular */
 		{	/* short symbols at every buffer alignment (encoder side of C07/C06) */
 			int L, al;
 			for (L = 1; L <= 24; L++) for (al = 1; al < 8; al++) { add_pt (1, 8, 3, 2, 0, 0, L, al); add_pt (2, 8, 3, 2, 0, 0, L, al); add_pt (2, 4, 3, 2, 0, 0, L, al); add_pt (2, 4, 7, 8, 0, 0, L, al); }
